@@ -129,6 +129,12 @@ CHECKS = {
     design_ref="DESIGN.md 4.5, 7 (C18)",
     note="The race of the double is_expired() evaluation in MultiReceiver::cleanup (DESIGN D20) needs a sub-microsecond coincidence and is not reachable.",
     technique="TLA+ mechanism spec model-checked with TLC; TLC-generated behaviours replayed on the real MultiReceiver; TLA+ monitor on recorded traces"),
+ "C06": dict(
+    category="model_checking",
+    text="Wire.tla specifies the ALC/LCT layouts byte by byte (LCT header with every C/S/O/H width, header-extension walk with fixed and variable-length extensions up to HEL 255, EXT_FDT, EXT_CENC, EXT_TIME with NTP arithmetic on digit sequences, EXT_FTI and FEC payload ids of FEC 0, 1, 2, 5, 6, 129).  TLC enumerates the field-class combinations in both directions: packets built by flute's packet builder are decoded by Wire.tla and must carry exactly the values given (TSI < 2^48, TOI < 2^112, CCI, flags, FDT id/version, CENC, SCT to the microsecond, FTI per scheme, payload ids); packets built by Wire.tla (all width combinations, non-minimal widths, unknown extensions before/after the known ones) are parsed by flute and must give the same values; the harness decoder rfcdec is validated against Wire.tla on all of them and on every packet of real Sender runs.",
+    design_ref="DESIGN.md 4.2, 7 (C06)",
+    note="No RFC text is available offline: layouts come from memory of the RFCs, the figures quoted in flute's comments and the raptorq crate (RFC 6330); the Raptor (FEC 1) EXT_FTI is specified up to self-consistency only (D9).  Class representatives and boundary values, not all 2^112 TOIs.",
+    technique="TLA+ byte-level wire specification; TLC enumeration both directions; recorded (bytes, values) pairs validated by TLC"),
 }
 
 NOT_YET = "check under construction in this round (specification and harness not finished yet)"
